@@ -94,11 +94,34 @@ var _ d.S
 }
 
 
+# packages of several files: where a file ends, what it imports, and what it leaves to its siblings
+MULTI = {
+    # directives behind the last declaration of a file, files without declarations, a file that is only a comment
+    "eof": {
+        "a_last.go": "package gen\n\nimport \"m/d\"\n\nfunc f(p *d.T) { p.X = 1 }\n\nvar Zero = d.T{} // @ignore CTOR01",
+        "b_tail.go": "package gen\n\nimport \"m/d\"\n\nvar One = d.T{X: 1}\n\n// @ignore CTOR01\n",
+        "c_tailblock.go": "package gen\n\nvar two = 2\n/* @ignore ALL */",
+        "d_nodecl.go": "// @ignore ALL\npackage gen\n\n// @ignore IMM\n",
+        "e_imports.go": "package gen\n\nimport _ \"m/d\" // @ignore PKGO01\n// @immutable\n",
+        "f_empty.go": "package gen",
+    },
+    # an alias of an annotated type declared in one file and used in files that do not import the declaring package
+    "splitalias": {
+        "alias.go": "package gen\n\nimport \"m/d\"\n\ntype Tok = d.PT\n\ntype Imm = d.T\n\ntype Tst = *d.TT\n\nvar Fn = d.PF\n\nvar Tf = d.TF\n",
+        "use.go": "package gen\n\nfunc use(t *Tok, i *Imm) Tst {\n\t_ = Tok{X: 1}\n\ti.X = 2\n\t_ = Imm{X: 3}\n\t_ = Fn(4) + Tf(5)\n\treturn nil\n}\n\nvar g = Tok{X: 6}\n",
+        "use2.go": "package gen\n\nimport \"fmt\"\n\nfunc use2() {\n\tvar t Tok\n\tfmt.Println(t, new(Imm), Tst(nil))\n}\n",
+    },
+}
+
+
 def generated_programs():
     out = []
     for name, src in GENERATED.items():
         out.append({"id": "C10_" + name, "pkgs": [{"path": "m/d", "name": "d", "files": [{"name": "d/d.go", "src": gen_all.D_SRC}]},
                                                     {"path": "m/gen", "name": "gen", "files": [{"name": "gen/%s.go" % name, "src": src}]}]})
+    for name, files in MULTI.items():
+        out.append({"id": "C10_" + name, "pkgs": [{"path": "m/d", "name": "d", "files": [{"name": "d/d.go", "src": gen_all.D_SRC}]},
+                                                    {"path": "m/gen", "name": "gen", "files": [{"name": "gen/" + f, "src": src} for f, src in sorted(files.items())]}]})
     # many independent packages that each claim an imported interface (concurrent passes over a shared dependency)
     many = "\n".join("// I%d is a port.\ntype I%d interface {\n\tM%d(n int) string\n}\n" % (i, i, i) for i in range(48))
     pkgs = [{"path": "m/d", "name": "d", "files": [{"name": "d/d.go", "src": gen_all.D_SRC}, {"name": "d/ports.go", "src": "package d\n\n" + many}]}]
@@ -245,7 +268,7 @@ def run(ctx):
         "distinct_nontrivial": len(items) + npk,
         "rule": "TLC: termination of the Immutable and Constructor walks under fairness, and the crash state reachable under LeakWalkState; replay: "
                 "every 2-declaration Immutable program containing a package-level initialiser, 'generated code' shapes (//line directives beyond the "
-                "end of the file with trailing @ignore, a 70 KB source line, generics, malformed / oddly placed annotations) and 48 independent packages "
+                "end of the file with trailing @ignore, directives behind the last declaration / in files without declarations, an alias declared in one file and used in siblings that do not import the annotated package, a 70 KB source line, generics, malformed / oddly placed annotations) and 48 independent packages "
                 "claiming an imported interface, in process (2 configurations x sequential/parallel), through the real binary (text and json) and go vet; "
                 "annotated corpora: %d cloned standard-library packages with annotations, near-misses and @ignore comments injected at seeded random "
                 "declarations, analysed by the instrumented build under both drivers, every Start/End/Finish validated by CorpusTrace" % npk,
